@@ -103,6 +103,9 @@ T = [
     ('control', 'while-input-dependent', 'i1 k2', 'k = i1\ndo while (k > 0)\n  k = k - 2\n  k2 = k2 + 1\nend do'),
     ('control', 'loop-variable-after-loop', 'n k2', 'do i = 1, n\n  k2 = k2 + 1\nend do\nk2 = k2 + i'),
     ('control', 'cycle-in-loop', 'n a', 'do i = 1, n\n  if (a(i) < 0) cycle\n  a(i) = 0\nend do'),
+    ('control', 'exit-in-loop', 'n a k2', 'do i = 1, n\n  if (a(i) > 3) exit\n  k2 = k2 + a(i)\nend do'),
+    ('control', 'cycle-in-nested-loop', 'n b', 'do j = 1, 2\n  do i = 1, n\n    if (b(i, j) < 0.0) cycle\n    b(i, j) = b(i, j)*2.0\n  end do\n  b(1, j) = b(1, j) + 1.0\nend do'),
+    ('control', 'return-in-loop', 'n a k2', 'do i = 1, n\n  if (a(i) == 0) return\n  k2 = k2 + 1\nend do\nk2 = -k2'),
     ('control', 'early-return', 'i1 i2 flag k2', 'k2 = i1\nif (flag) return\nk2 = i2'),
     # -------------------------------------------------------------------------------------------------- intrinsics
     ('intrinsic', 'min-max-int', 'i1 i2 k2', 'k2 = max(i1, i2, 3) - min(i1, i2) + min(max(i1, 0), 4)'),
